@@ -55,7 +55,10 @@ class CassetteFile(VirtualFileContainer):
         while True:
             coco_file, pointer = self.read_file(pointer)
             if not coco_file:
-                return files
+                if pointer == -1:
+                    return files
+                # a file without data cannot be represented: skip it, the files behind it are still there
+                continue
 
             if not filenames or coco_file.name in filenames:
                 files.append(coco_file)
